@@ -48,6 +48,7 @@ var ipv4Nums = []string{"0", "1", "7", "8", "9", "10", "127", "255", "256", "257
 	"9223372036854775807", "9223372036854775808", "18446744073709551615", "18446744073709551616", "99999999999999999999", "340282366920938463463374607431768211456",
 	"0x0", "0x1", "0xff", "0xFF", "0x100", "0xffff", "0x10000", "0xffffff", "0x1000000", "0xffffffff", "0x100000000", "0x7fffffffffffffff", "0x8000000000000000", "0xffffffffffffffffff",
 	"0X1", "0XfF", "0x", "0X", "0xg", "0x1g", "0xG", "00", "01", "07", "08", "09", "010", "0377", "0400", "0177777", "037777777777", "040000000000", "0777777777777777777777", "01000000000000000000000", "0777777777777777777777777",
+	"99999999999999999999z", "0x99999999999999999999z", "18446744073709551616x", "0xffffffffffffffffffg", "07777777777777777777777778", "0777777777777777777777779", "18446744073709551615.", "9223372036854775808a",
 	"+1", "-1", "+0", "-0", "1e3", "1_0", " 1", "1 ", "", "0x+f", "0x-1", "0+1", "a", "f", "x", "0a", "1x", "0b1", "0o7", "１", "٣"}
 
 var portPool = []string{"", "80", "443", "21", "0", "00", "00080", "8080", "65535", "65536", "65537", "99999", "4294967377", "99999999999999999999", "8a", "a8", "-1", "+1", " 80", "80 ", "8 0", "８０", "1", "70", "080"}
